@@ -10,6 +10,7 @@ import Juniper.Proofs.Minimal
 import Juniper.Proofs.IterEqual
 import Juniper.Proofs.MinimalMore
 import Juniper.Proofs.Agree
+import Juniper.Proofs.StreamPeek
 /-!
 # C07 — iterator / stream / xslices combinators compute their documented sequence function;
 lazy; sticky end (property theorems)
@@ -554,6 +555,31 @@ example : (Stream.one Stream.src true 5 (ofList [4, 5, 6])).2.pulled = 2 := by d
 
 end stream
 
+section streamPeek
+open Juniper.Model.Stream Juniper.Proofs.StreamDen
+variable {α : Type}
+
+/-- **`stream.WithPeek` under any interleaving of `Peek` and `Next` and any per-call contexts**
+(fault-free source): the answers are those of the abstract machine `(j, has)` — every call answers the
+item after those consumed by the earlier `Next`s; a call whose context has expired answers the context
+error and changes nothing, unless an item is buffered, which is then served — and the source has been
+pulled for `j + [an item is buffered]` items. -/
+theorem s_peek_interleave (l : List α) (ops : List SPeekOp) :
+    (speekRun Stream.src ops ⟨ofList l, none⟩).1 = speekAnswers l ops (0, false) ∧
+    (speekRun Stream.src ops ⟨ofList l, none⟩).2.inner.pulled =
+      (speekTrack l.length ops (0, false)).1 + (speekTrack l.length ops (0, false)).2.toNat := s_peek_interleave' l ops
+
+/-- … with live contexts, in closed form: `min len (#Next + [the last call was a Peek])`, as for the iterator. -/
+theorem s_peek_interleave_live (l : List α) (ops : List IterDen.PeekOp) :
+    (speekRun Stream.src (ops.map liveOp) ⟨ofList l, none⟩).2.inner.pulled =
+      min l.length (IterDen.peekNexts ops + if ops.getLast? = some .peek then 1 else 0) := s_peek_interleave_live' l ops
+
+example : speekAnswers [7, 8] [.peek true, .next false, .peek false, .next true, .peek true] (0, false)
+    = [.item 7, .item 7, .err .ctx, .item 8, .end_] ∧
+    speekTrack 2 [.peek true, .next false, .peek false, .next true, .peek true] (0, false) = (2, false) := by decide
+
+end streamPeek
+
 /-! ### iterator and stream versions agree (fault-free) -/
 
 section agree
@@ -713,7 +739,6 @@ iterators (and with `stream.Flatten`, see `iter_stream_agree_flatten`): same ite
 theorem iter_stream_agree_flattenSlices (ls : List (List α)) :
     ∃ L, Den (Iter.flatten Iter.src Iter.src) (fun st => st.outer.pulled) ⟨Iter.Src.of (ls.map Iter.Src.of), none⟩ L ls.length ∧
       SDen Stream.Err.soft (Stream.flattenSlices Stream.src) (fun st => st.inner.pulled) ⟨ofList ls, []⟩ L (.end_ ls.length) := by
-  obtain ⟨L, h1, _⟩ := iter_stream_agree_flatten ls
   refine ⟨(annot 0 ls).flatMap fun p => p.1.map fun a => (a, p.2), ?_, C07.s_flattenSlices_pulls ls⟩
   have h := flatten_den (mi := Iter.src) (fun s : Iter.Src α => s.rest) (slice_denotes (ls.map Iter.Src.of))
     (fun p _ => ⟨_, _, _, src_den p.1.rest p.1.calls p.1.pulled, annot_fst _ _⟩)
